@@ -353,17 +353,17 @@ impl Harness for ContainerHarness {
             1 => {
                 let c = Arc::new(FixedSizeContainer::<Rec, 1>::new());
                 scrub(&*c);
-                sim::run(cfg.to_cfg(), dec, move || body::<1>(c, p, sh2))
+                sim_run(cfg.to_cfg(), dec, move || body::<1>(c, p, sh2))
             }
             2 => {
                 let c = Arc::new(FixedSizeContainer::<Rec, 2>::new());
                 scrub(&*c);
-                sim::run(cfg.to_cfg(), dec, move || body::<2>(c, p, sh2))
+                sim_run(cfg.to_cfg(), dec, move || body::<2>(c, p, sh2))
             }
             _ => {
                 let c = Arc::new(FixedSizeContainer::<Rec, 3>::new());
                 scrub(&*c);
-                sim::run(cfg.to_cfg(), dec, move || body::<3>(c, p, sh2))
+                sim_run(cfg.to_cfg(), dec, move || body::<3>(c, p, sh2))
             }
         };
         let g = sh.lock().unwrap();
